@@ -4,7 +4,9 @@ import (
 	"bytes"
 	"encoding/json"
 	"fmt"
+	"regexp"
 	"sort"
+	"strconv"
 	"strings"
 )
 
@@ -189,6 +191,12 @@ func kindsFor(p path, val any) []string {
 			ks = append(ks, "deep-array-10k", "deep-object-10k", "deep-array-200")
 		}
 	}
+	if sv, ok := val.(string); ok && reNumText.MatchString(sv) {
+		// amounts and percentages are parsed by hand: texts at and beyond every bound of that parser
+		for i := range numTexts {
+			ks = append(ks, fmt.Sprintf("num-text:%d", i))
+		}
+	}
 	switch v := val.(type) {
 	case []any:
 		ks = append(ks, "array-append-null", "array-all-null", "array-empty")
@@ -213,6 +221,22 @@ func kindsFor(p path, val any) []string {
 	}
 	return ks
 }
+
+var reNumText = regexp.MustCompile(`^-?[0-9]+(\.[0-9]+)?%?$`)
+
+// numTexts: number-like texts around the limits of the hand-written amount / percentage parser
+// (18 decimals, 64-bit values, 10^n wrapping to 0 at n = 64) and its syntax.
+var numTexts = func() []string {
+	z := func(n int) string { return strings.Repeat("0", n) }
+	out := []string{}
+	for _, n := range []int{18, 19, 20, 40, 63, 64, 65, 128, 1000} {
+		out = append(out, "1."+z(n), "0."+z(n)+"%", "-0."+z(n-1)+"1", "1"+z(n))
+	}
+	out = append(out, ".5", "1.", "-", "--1", "-.5", "1..2", "1.2.3", "+1", "1e5", "1E-5", " 1", "1 ", "0x10", "NaN", "Inf", "-Inf",
+		"٣", "１２", "1,5", "1_000", "%", "1%%", "-%", "9223372036854775807", "9223372036854775808", "-9223372036854775808",
+		"-9223372036854775809", "92233720368547758.07", "92233720368547758.08", "0.9223372036854775807", "18446744073709551616")
+	return out
+}()
 
 // LegacyMembers is filled by the harness from the repository sources: the
 // JSON member names declared in auxiliary structs inside UnmarshalJSON methods.
@@ -273,6 +297,9 @@ func apply(data []byte, p path, kind string) []byte {
 		root = setAt(root, p, true)
 	case kind == "empty-string":
 		root = setAt(root, p, "")
+	case strings.HasPrefix(kind, "num-text:"):
+		i, _ := strconv.Atoi(kind[len("num-text:"):])
+		root = setAt(root, p, numTexts[i])
 	case kind == "huge-number":
 		if _, ok := val.(string); ok {
 			root = setAt(root, p, "99999999999999999999999999.99")
